@@ -16,6 +16,7 @@ vars == <<l>>
 
 KnownDevWhys == DevWhys
 HygDevs == {"dev:D10-temporary-shared-across-activations"}
+D6Dev == "D6-compound-assignment-target-evaluated-twice"
 
 Verdict(rid, prop, v, detail) == PrintT("VERDICT|" \o rid \o "|" \o prop \o "|" \o v \o "|" \o ToString(detail))
 
@@ -68,7 +69,7 @@ JudgeOk(r) ==
       alld == SetOfSeq(r.cfg.alldsts)
       strayNames == IF modified /\ ~r.in_mentions_ns THEN NamespaceRefs(rout) \ alld ELSE {}
       whys == {marks[i].hw : i \in 1..Len(marks)} \ {""}
-      nhooks == IF m.ok THEN Cardinality(pairs) ELSE Len(marks)
+      nhooks == Len(marks)                  \* hook call sites actually present in the output
       hookedTags == {sites[i].tag : i \in {j \in siteIdx : sites[j].id \in hookedIds}}
       tagCount(tag) == Cardinality({i \in siteIdx : sites[i].id \in hookedIds /\ sites[i].tag = tag})
       dbgTags == {r.debug[i].tag : i \in 1..Len(r.debug)}
@@ -77,6 +78,9 @@ JudgeOk(r) ==
   /\ IF ~m.ok THEN Verdict(r.rid, "C02", "reject", m.why)
      ELSE IF m.devs # {} THEN Verdict(r.rid, "C02", "dev", m.devs)
      ELSE Verdict(r.rid, "C02", "ok", IF modified THEN "erased" ELSE "untouched")
+  \* ---- C01 (static hint for the dynamic decider) : a lowered optional call that dropped its receiver
+  /\ IF m.ok /\ HasOrigin(e, D21Mark) THEN Verdict(r.rid, "C01", "dev", {"D21-optional-call-loses-receiver"})
+     ELSE TRUE
   \* ---- C03 (static half) : hook argument lists
   /\ IF whys \subseteq KnownDevWhys /\ whys # {} THEN Verdict(r.rid, "C03", "dev", whys)
      ELSE IF whys # {} THEN Verdict(r.rid, "C03", "reject", whys)
@@ -124,6 +128,10 @@ JudgeOk(r) ==
   /\ IF r.cfg.verbosity = "OFF"
      THEN IF r.count = 0 /\ ~r.has_debug THEN Verdict(r.rid, "C15", "ok", "off")
           ELSE Verdict(r.rid, "C15", "reject", <<"verbosity off but", r.count, r.has_debug>>)
+     ELSE IF r.count # nhooks /\ m.ok /\ D6Dev \in m.devs /\ r.count = Cardinality(pairs)
+          \* the duplicated += target (named deviation D6) repeats the hook calls nested in it: they
+          \* are emitted twice and counted once
+          THEN Verdict(r.rid, "C15", "dev", {D6Dev})
      ELSE IF r.count # nhooks THEN Verdict(r.rid, "C15", "reject", <<"count", r.count, "hook sites", nhooks>>)
      ELSE IF r.cfg.verbosity = "DEBUG" /\ ~r.has_debug THEN Verdict(r.rid, "C15", "reject", "no debug breakdown")
      ELSE IF r.cfg.verbosity # "DEBUG" /\ r.has_debug THEN Verdict(r.rid, "C15", "reject", "unexpected debug breakdown")
